@@ -9,11 +9,13 @@ package main
 // after that the rest is shed. So with N requests parked behind the probe:
 //
 //	R1  while the first probe is in flight no second upstream call is made;
-//	R2  if every probe fails (or the burst is for one question) at most 2
-//	    upstream calls are made in total, whatever N is.
+//	R2  if every probe fails (cacheable or request-local) at most 2 upstream
+//	    calls are made in total, whatever N is.
 //
-// When the probe succeeds for a zone-wide generation, the other (different)
-// questions legitimately resolve on their own — R2 is not applied there.
+// When a probe succeeds the failure generation is deleted: other questions
+// under the zone resolve on their own, and a straggler of the same question
+// that re-checked the answer cache an instant before the answer landed falls
+// through as an ordinary cache miss — R2 is not applied there.
 //
 // "Parked" is established without timing: the first request is started alone
 // and held inside the stub; the others are started and the harness waits
@@ -25,6 +27,8 @@ package main
 import (
 	"context"
 	"fmt"
+	"net/netip"
+	"os"
 	"runtime"
 	"strings"
 	"sync"
@@ -52,6 +56,9 @@ type burstCall struct {
 	qtype uint16
 	p     plan
 	end   time.Time
+	// an ACTIVE cached failure covered this very question when the call
+	// entered the stub (Store.LookupFailure, the lookup the cache itself uses)
+	activeAtEntry bool
 }
 
 type burstState struct {
@@ -65,6 +72,11 @@ type burstState struct {
 }
 
 func (b *burstState) stub(ctx context.Context, req *stack.StubRequest, h *hist) *stack.StubReply {
+	var scope netip.Prefix
+	if a := audience(h.c.Cfg.ECS, b.spec.ECS); a != "" {
+		scope, _ = netip.ParsePrefix(a)
+	}
+	_, active := h.cache.VerifStore().LookupFailure(req.Msg, scope)
 	b.mu.Lock()
 	n := len(b.calls)
 	p := b.spec.Leader
@@ -74,7 +86,7 @@ func (b *burstState) stub(ctx context.Context, req *stack.StubRequest, h *hist) 
 	if b.spec.CancelLead && n == 0 {
 		p = plan{Kind: "local", Local: "cancel"}
 	}
-	b.calls = append(b.calls, burstCall{name: canon(req.Q.Name), qtype: req.Q.Qtype, p: p})
+	b.calls = append(b.calls, burstCall{name: canon(req.Q.Name), qtype: req.Q.Qtype, p: p, activeAtEntry: active})
 	b.inStub++
 	if b.inStub > b.maxIn {
 		b.maxIn = b.inStub
@@ -190,8 +202,16 @@ func (h *hist) Burst(spec burstSpec) {
 		for i := 1; i < spec.N; i++ {
 			launch(i, context.Background())
 		}
+		allDone := make(chan struct{})
+		go func() { wg.Wait(); close(allDone) }()
 		deadline := time.Now().Add(10 * time.Second)
+	poll:
 		for time.Now().Before(deadline) {
+			select {
+			case <-allDone:
+				break poll
+			default:
+			}
 			b.mu.Lock()
 			in := b.inStub
 			b.mu.Unlock()
@@ -207,6 +227,7 @@ func (h *hist) Burst(spec burstSpec) {
 	b.mu.Lock()
 	atBarrier := b.inStub
 	b.mu.Unlock()
+	parkedNow := parkedFollowers()
 	if spec.CancelLead {
 		lcancel()
 	}
@@ -232,6 +253,9 @@ func (h *hist) Burst(spec burstSpec) {
 		r.Count("burst_not_on_expired_state", 1)
 	} else if !formed {
 		r.Count("burst_barrier_not_formed", 1)
+		if os.Getenv("C13_DEBUG") != "" {
+			fmt.Fprintf(os.Stderr, "NOTFORMED spec=%+v atBarrier=%d parked=%d calls=%d cfg=%s\n", spec, atBarrier, parkedNow, len(calls), h.c.Cfg)
+		}
 	} else {
 		r.Count("bursts_judged", 1)
 		r.Max("burst_parked_followers_max", int64(spec.N-atBarrier))
@@ -246,16 +270,32 @@ func (h *hist) Burst(spec burstSpec) {
 				allFail = false
 			}
 		}
-		if spec.Scenario == "same-name" || allFail {
+		// R2 only while the failure generation remains (no probe succeeded):
+		// after a useful answer the state is gone, and a straggler that
+		// re-checked the answer cache just before the answer landed resolves
+		// as an ordinary miss (cache.go: "Ordinary followers that still see
+		// a miss proceed to run the upstream chain themselves").
+		if allFail {
 			r.Count("bursts_count_bound_checked", 1)
 			r.Count(fmt.Sprintf("burst_upstream_calls_%d", min(len(calls), 3)), 1)
-			if len(calls) > 2 {
+			bypass := len(calls) > 2
+			for _, c := range calls[min(2, len(calls)):] {
+				if !c.activeAtEntry {
+					bypass = false
+				}
+			}
+			if bypass {
+				r.Violation("burst/straggler-upstream-during-active-failure",
+					fmt.Sprintf("%d upstream calls for a burst of %d parked followers of one expired failure generation (%s, leader %s%s, second %s%s): call(s) beyond the second entered resolution while an ACTIVE cached failure already covered their question",
+						len(calls), spec.N, spec.Scenario, spec.Leader.Kind, spec.Leader.Local, spec.Second.Kind, spec.Second.Local), h.replay(idx))
+			} else if len(calls) > 2 {
 				r.Violation("burst/more-than-two-upstream-calls",
 					fmt.Sprintf("%d upstream calls for a burst of %d parked followers of one expired failure generation (%s, leader %s%s, second %s%s)",
 						len(calls), spec.N, spec.Scenario, spec.Leader.Kind, spec.Leader.Local, spec.Second.Kind, spec.Second.Local), h.replay(idx))
 			}
 		} else {
-			r.Count("bursts_probe_succeeded_siblings_resolve", 1)
+			r.Count("bursts_with_successful_probe", 1)
+			r.Max("burst_upstream_calls_after_success_max", int64(len(calls)))
 		}
 	}
 	for _, rp := range replies {
